@@ -141,6 +141,14 @@ def main(tier, seed, replay=None):
         nf = nf_scan(pruned)
         if nf and not bad:
             bad = dict(what="pruned circuit is not in normal form", detail=nf)
+        # copy=False on a private deep copy gives the same circuit
+        try:
+            twin = _copy.deepcopy(root); inpl = prune(twin, copy=False)
+            if not bad and json.dumps(G.Table(inpl).brief()) != json.dumps(ptab.brief()):
+                bad = dict(what="prune(copy=False) on a deep copy differs from prune(copy=True)", in_place=G.Table(inpl).brief())
+        except Exception as e:
+            if not bad:
+                bad = dict(what="prune(copy=False) raised on a valid circuit", error=f"{type(e).__name__}: {e}")
         again = prune(pruned, copy=True)
         if not bad and len(G.post_order(again)) != len(G.post_order(pruned)):
             bad = dict(what="pruning again changes the circuit", nodes=len(G.post_order(pruned)), nodes_again=len(G.post_order(again)))
